@@ -333,9 +333,9 @@ def generate(repo):
     flat = re.sub(r"\s+", " ", re.sub(r"//[^\n]*", "", b))
     if "pulldown_cmark::Options::all() .difference(pulldown_cmark::Options::ENABLE_SMART_PUNCTUATION)" not in flat:
         raise Shape("Markdown::parse: pulldown-cmark options changed")
-    if "for (event, range) in md_parser.into_offset_iter() { if range.start > traversed_bytes { traversed_chars += source_str[traversed_bytes..range.start].chars().count(); traversed_bytes = range.start; } if let Some(last) = tokens.last() { covered_until = covered_until.max(last.span.end); } if traversed_chars < covered_until && matches!( event, pulldown_cmark::Event::SoftBreak | pulldown_cmark::Event::HardBreak | pulldown_cmark::Event::InlineMath(_) | pulldown_cmark::Event::DisplayMath(_) | pulldown_cmark::Event::Code(_) | pulldown_cmark::Event::Text(_) | pulldown_cmark::Event::Html(_) | pulldown_cmark::Event::InlineHtml(_) ) { continue; } match event {" not in flat:
-        raise Shape("Markdown::parse: the cursor advance / the covered_until guard (8b26ba4) changed")
-    if "let mut covered_until = 0;" not in flat or flat.count("covered_until") != 4:
+    if "for (event, range) in md_parser.into_offset_iter() { let behind_cursor = range.start < traversed_bytes; if range.start > traversed_bytes { traversed_chars += source_str[traversed_bytes..range.start].chars().count(); traversed_bytes = range.start; } if let Some(last) = tokens.last() { covered_until = covered_until.max(last.span.end); } if (behind_cursor || traversed_chars < covered_until) && matches!( event, pulldown_cmark::Event::SoftBreak | pulldown_cmark::Event::HardBreak | pulldown_cmark::Event::InlineMath(_) | pulldown_cmark::Event::DisplayMath(_) | pulldown_cmark::Event::Code(_) | pulldown_cmark::Event::Text(_) | pulldown_cmark::Event::Html(_) | pulldown_cmark::Event::InlineHtml(_) ) { continue; } match event {" not in flat:
+        raise Shape("Markdown::parse: the cursor advance / the behind_cursor + covered_until guard (8b26ba4, b736ef8) changed")
+    if "let mut covered_until = 0;" not in flat or flat.count("covered_until") != 4 or flat.count("behind_cursor") != 2:
         raise Shape("Markdown::parse: covered_until is used differently")
     brk = re.findall(r"Event::(SoftBreak|HardBreak|Start\(pulldown_cmark::Tag::List\(v\)\)) => \{ tokens\.push\(Token \{ span: Span::new_with_len\(traversed_chars, (\d+)\), kind: TokenKind::Newline\((\d+)\), \}\);", flat)
     if [x[0].split("(")[0] for x in brk] != ["SoftBreak", "HardBreak", "Start"]:
